@@ -33,6 +33,7 @@ pub struct Info {
     pub refused_density: usize,
     pub refused_equal_len: usize,
     pub orphans: usize,
+    pub early_blocks: usize,
     pub branches_len2: usize,
     pub dead: Option<String>,
 }
@@ -163,11 +164,18 @@ pub fn run_case(case: &Case) -> (Vec<(String, String)>, Info) {
             // (d) orphan: neither tip nor index may change
             if !parent_known && !known.contains(&bi) || (!parent_known && o.outcome.accepted()) {
                 info.orphans += 1;
-                if lc_false {
+                // finding F10 needs a parentless block at or below the tip's height; one that merely
+                // arrives early (above the tip) must leave tip and index alone like any other, and
+                // the history goes on being judged
+                let hazardous = b.id <= before.tip_id;
+                if lc_false && hazardous {
                     orphan_seen = true;
                 }
+                if lc_false && !hazardous {
+                    info.early_blocks += 1;
+                }
                 if before.tip_hash != after.tip_hash || before.lc_index != after.lc_index {
-                    let key = if lc_false { "C05|orphan_path".to_string() } else { "C05|orphan_disturbs|loading_completed=true".to_string() };
+                    let key = if lc_false && hazardous { "C05|orphan_path".to_string() } else if lc_false { "C05|early_block_disturbs|loading_completed=false".to_string() } else { "C05|orphan_disturbs|loading_completed=true".to_string() };
                     v.push((key, format!("block idx {} (id {}) arrived before its parent: tip {} -> {}, index changed: {}", bi, b.id, hx(&before.tip_hash), hx(&after.tip_hash), before.lc_index != after.lc_index)));
                 }
             }
@@ -301,6 +309,9 @@ fn classify(c: &mut Ctx, case: &Case, info: &Info) {
     }
     if info.orphans > 0 {
         c.class("with_orphan");
+        if info.early_blocks > 0 {
+            c.class("with_early_block(judged)");
+        }
     }
     if let Some(d) = &info.dead {
         c.class(&format!("aborted_attributed_to_C04:{d}"));
